@@ -18,6 +18,7 @@ import traceback
 
 from .core import Explorer, EngineError, PathEnd
 from .interp import AnchorMoved
+from .values import PyRaise
 from .source import SourceIndex, REPO
 from . import solve
 
@@ -130,6 +131,7 @@ def run_property(prop, tier='quick', seed=0, only_unit=None, verbose=False):
   t0 = time.time()
   index = SourceIndex()
   explorer = Explorer()
+  explorer.label_prefixes = list(prop.label_prefixes)
   all_obs = []
   unit_stats = []
   status = {'crash': [], 'undecided': [], 'vacuous': []}
@@ -167,6 +169,14 @@ def run_property(prop, tier='quick', seed=0, only_unit=None, verbose=False):
       continue
     except RecursionError as e:
       status['crash'].append("%s: recursion: %s" % (u.name, e))
+      continue
+    except PyRaise as e:
+      # the real function raised from a pre-state the sidecar harness built (e.g. it now reads an
+      # attribute the harness does not know): the contract does not apply to this code as it stands
+      status['undecided'].append("%s: the function under contract raised %r from the harness pre-state; contract no longer matches the code" % (u.name, e.exc))
+      mismatch_units.append(u)
+      if verbose:
+        traceback.print_exc()
       continue
     except (KeyError, AttributeError, TypeError, IndexError) as e:
       # the contract refers to something the (changed) function no longer has, e.g. a loop
